@@ -690,6 +690,7 @@ pub struct VerifyCtx<'a> {
     pub acks: &'a Acks,
     pub failed_ids: BTreeSet<u64>,
     pub failed_recs: &'a [TxnRec],
+    pub base_required: usize,
 }
 
 /// Open the image with the real code and check it. `probe`: also do the commit-after-recovery
@@ -707,6 +708,7 @@ pub async fn verify_image(ctx: &VerifyCtx<'_>, img: &Path, plan: &ImagePlan, idx
             }
         }
     }
+    let required = required.max(ctx.base_required);
     res.required = required;
     res.nontrivial = required > 0;
     let had_repair_dir = img.join("wal").join("repair_temp").exists();
@@ -927,6 +929,9 @@ pub struct Job {
     /// C15, single-committer traces only: the failed transactions with their operations, so
     /// that a non-prefix state can be recognised as "commit order with the failed ones replayed"
     pub failed_recs: Vec<TxnRec>,
+    /// second generation: the first `base_required` transactions of `txns` were recovered by the
+    /// run that produced the base image; they are on disk and must survive every later crash
+    pub base_required: usize,
     pub plans: Vec<ImagePlan>,
     pub probe_every: usize,
     pub base_dir: Option<PathBuf>,
@@ -941,6 +946,7 @@ impl Job {
             "txns": self.txns.iter().map(|t| t.to_json()).collect::<Vec<_>>(),
             "failed": self.failed,
             "failed_recs": self.failed_recs.iter().map(|t| t.to_json()).collect::<Vec<_>>(),
+            "base_required": self.base_required,
             "plans": self.plans.iter().map(|p| json!({"upto": p.upto, "ref_pos": p.ref_pos, "loss": loss_json(&p.loss)})).collect::<Vec<_>>(),
             "probe_every": self.probe_every,
             "base_dir": self.base_dir,
@@ -955,6 +961,7 @@ impl Job {
             txns: j["txns"].as_array().map(|a| a.iter().map(TxnRec::from_json).collect()).unwrap_or_default(),
             failed: j["failed"].as_array().map(|a| a.iter().filter_map(|x| x.as_u64()).collect()).unwrap_or_default(),
             failed_recs: j["failed_recs"].as_array().map(|a| a.iter().map(TxnRec::from_json).collect()).unwrap_or_default(),
+            base_required: j["base_required"].as_u64().unwrap_or(0) as usize,
             plans: j["plans"]
                 .as_array()
                 .map(|a| {
@@ -983,7 +990,7 @@ pub fn verify_main(args: &[String]) -> i32 {
     let recs = trace::parse(&std::fs::read(&job.trace_file).unwrap_or_default());
     let ak = acks(&recs);
     let states = prefix_states(&job.txns);
-    let ctx = VerifyCtx { cfg: &job.cfg, txns: &job.txns, states: &states, acks: &ak, failed_ids: job.failed.iter().cloned().collect(), failed_recs: &job.failed_recs };
+    let ctx = VerifyCtx { cfg: &job.cfg, txns: &job.txns, states: &states, acks: &ak, failed_ids: job.failed.iter().cloned().collect(), failed_recs: &job.failed_recs, base_required: job.base_required };
     let scratch = crate::e1::scratch_root().join(format!("v{}", k));
     let _ = std::fs::create_dir_all(&scratch);
     let img = scratch.join("img");
